@@ -148,6 +148,22 @@ class Context:
             raise PathInfeasible()
         self.hyps.append(V.zbool(f))
 
+    class _Scope:
+        def __init__(self, ctx):
+            self.ctx = ctx
+
+        def __enter__(self):
+            self.ctx.collect_side()
+            self.n = len(self.ctx.hyps)
+
+        def __exit__(self, *a):
+            self.ctx.collect_side()
+            del self.ctx.hyps[self.n:]
+
+    def scope(self):
+        """local hypotheses: everything assumed inside the with-block is dropped at its end"""
+        return Context._Scope(self)
+
     def forall(self, lo, hi, body, name='q'):
         """quantified fact over lo <= i < hi; expanded when the bounds are concrete"""
         lo_, hi_ = V.simp(lo) if is_sym(lo) else lo, V.simp(hi) if is_sym(hi) else hi
@@ -163,6 +179,11 @@ class Context:
         elif goal is False:
             goal = z3.BoolVal(False)
         self.path_obls.append(Obligation(f"{self.prop}.{self.hname}.{name}", self.all_hyps(), V.zbool(goal), self.cur_line, kind,
+                                         path=list(d[0] for d in self.decisions)))
+
+    def prove_isolated(self, name, goal, hyps, kind='post'):
+        """obligation proved from the listed hypotheses only (a subset of what is known: sound, and keeps nonlinear queries small)"""
+        self.path_obls.append(Obligation(f"{self.prop}.{self.hname}.{name}", [V.zbool(h) for h in hyps] + list(self.pc), V.zbool(goal), self.cur_line, kind,
                                          path=list(d[0] for d in self.decisions)))
 
     def safety(self, name, cond):
